@@ -94,6 +94,19 @@ func H08Identity() {
 			}
 			vndAssert(keys[i].Get(f) == want, "get-returns-the-extracted-value")
 		}
+		// String and StringValues render exactly the non-empty values, in flattened field order
+		wantS, wantV := "", ""
+		for _, f := range proj.FlattenedFields() {
+			if v := keys[i].Get(f); v != "" {
+				if wantS != "" {
+					wantS += " "
+					wantV += " "
+				}
+				wantS += f.Name + ":" + v
+				wantV += v
+			}
+		}
+		vndAssert(keys[i].String() == wantS && keys[i].StringValues() == wantV, "string-renders-every-non-empty-value")
 		for j := i + 1; j < n; j++ {
 			same := vndAnd(vndAnd(st[i].a == st[j].a, st[i].b == st[j].b), vndAnd(st[i].c == st[j].c, st[i].unit == st[j].unit))
 			vndAssert((keys[i] == keys[j]) == same, "keys-equal-iff-projected-values-equal")
